@@ -483,6 +483,9 @@ func unaryOp(pkg *Package, tok token.Token, args []*internal.Elem) constant.Valu
 			if isUnsigned(args[0].Type) {
 				prec = uint(pkg.Sizeof(args[0].Type) * 8)
 			}
+			if !constUnaryOpDefined(tok, a) {
+				panic(fmt.Errorf("invalid operation: operator %v not defined on %v", tok, a))
+			}
 			return constant.UnaryOp(tok, a, prec)
 		}
 	}
@@ -540,18 +543,91 @@ retry:
 	return false
 }
 
+// maxConstShift is the largest constant shift count that is evaluated (as in go/types, which
+// bounds it by the precision of its constant arithmetic); larger counts would allocate
+// without bound.
+const maxConstShift = 1023 - 1 + 52
+
+func constKindClass(v constant.Value) constant.Kind {
+	switch k := v.Kind(); k {
+	case constant.Int, constant.Float, constant.Complex:
+		return constant.Float // numeric
+	default:
+		return k
+	}
+}
+
+// constUnaryOpDefined reports whether go/constant can evaluate tok a.
+func constUnaryOpDefined(tok token.Token, a constant.Value) bool {
+	switch tok {
+	case token.NOT:
+		return a.Kind() == constant.Bool
+	case token.XOR:
+		return a.Kind() == constant.Int
+	case token.ADD, token.SUB:
+		return constKindClass(a) == constant.Float
+	}
+	return true
+}
+
+// constBinaryOpDefined reports whether go/constant can evaluate a tok b (it panics on
+// operands of mismatched kinds, on integer operators with non-integer operands and on
+// integer division by zero).
+func constBinaryOpDefined(a constant.Value, tok token.Token, b constant.Value) error {
+	ka, kb := constKindClass(a), constKindClass(b)
+	ok := ka == kb
+	if ok {
+		switch tok {
+		case token.LAND, token.LOR:
+			ok = ka == constant.Bool
+		case token.ADD:
+			ok = ka == constant.Float || ka == constant.String
+		case token.SUB, token.MUL, token.QUO, token.QUO_ASSIGN:
+			ok = ka == constant.Float
+		case token.REM, token.AND, token.OR, token.XOR, token.AND_NOT:
+			ok = a.Kind() == constant.Int && b.Kind() == constant.Int
+		case token.EQL, token.NEQ:
+			ok = ka != constant.Unknown
+		case token.LSS, token.LEQ, token.GTR, token.GEQ:
+			ok = (ka == constant.Float && a.Kind() != constant.Complex && b.Kind() != constant.Complex) || ka == constant.String
+		}
+	}
+	if !ok {
+		return fmt.Errorf("invalid operation: operator %v not defined on %v and %v", tok, a, b)
+	}
+	switch tok {
+	case token.QUO, token.QUO_ASSIGN, token.REM:
+		if constant.Sign(b) == 0 && b.Kind() != constant.Complex || b.Kind() == constant.Complex && constant.Sign(constant.Real(b)) == 0 && constant.Sign(constant.Imag(b)) == 0 {
+			return errors.New("invalid operation: division by zero")
+		}
+	}
+	return nil
+}
+
 func doBinaryOp(a constant.Value, tok token.Token, b constant.Value, ctx []*internal.Elem) constant.Value {
 	switch binaryOpKinds[tok] {
 	case binaryOpNormal:
+		if err := constBinaryOpDefined(a, tok, b); err != nil {
+			panic(err)
+		}
 		return constant.BinaryOp(a, tok, b)
 	case binaryOpCompare:
+		if err := constBinaryOpDefined(a, tok, b); err != nil {
+			panic(err)
+		}
 		return constant.MakeBool(constant.Compare(a, tok, b))
 	default:
 		a, b = constant.ToInt(a), constant.ToInt(b)
 		if b.Kind() == constant.Unknown {
 			panic(fmt.Errorf("invalid shift count: cannot convert type %v to type uint", ctx[1].Type))
 		}
-		if s, exact := constant.Int64Val(b); exact {
+		if a.Kind() == constant.Unknown {
+			panic(fmt.Errorf("invalid operation: shifted operand %v must be integer", ctx[0].CVal))
+		}
+		if constant.Sign(b) < 0 {
+			panic(fmt.Errorf("invalid operation: negative shift count %v", b))
+		}
+		if s, exact := constant.Int64Val(b); exact && s <= maxConstShift {
 			return constant.Shift(a, tok, uint(s))
 		}
 		panic(errors.New("shift count too large (overflow)"))
